@@ -167,7 +167,7 @@ theorem optAll_some {f : Val → Bool} {o : Option Val} (h : optAll f o = true) 
 theorem consistent_boundsOk {p : Props} (hc : consistent p = true) (hn : p.fmt.isNumeric = true) :
     BoundsOk p := by
   simp only [consistent, hn, if_true, Bool.and_eq_true] at hc
-  obtain ⟨_, ⟨⟨⟨hlo, hhi⟩, hle⟩, _⟩, _⟩ := hc
+  obtain ⟨_, ⟨⟨⟨⟨hlo, hhi⟩, hle⟩, _⟩, _⟩, _⟩ := hc
   refine ⟨optAll_some hlo, optAll_some hhi, ?_⟩
   intro lo hi h1 h2
   simpa [h1, h2] using hle
@@ -177,13 +177,18 @@ theorem consistent_integral {p : Props} (hc : consistent p = true) (hi : p.fmt.i
     (∀ hi, p.maxV = some hi → isIntegralVal hi = true) := by
   have hn : p.fmt.isNumeric = true := by cases h : p.fmt <;> simp_all [Fmt.isNumeric, Fmt.isInteger]
   simp only [consistent, hn, hi, if_true, Bool.and_eq_true, Bool.not_true, Bool.false_or] at hc
-  obtain ⟨_, ⟨_, h1, h2⟩, _⟩ := hc
+  obtain ⟨_, ⟨⟨_, h1, h2⟩, _⟩, _⟩ := hc
   exact ⟨optAll_some h1, optAll_some h2⟩
 
 theorem consistent_vv {p : Props} (hc : consistent p = true) (hn : p.fmt.isNumeric = true) :
     ∀ i ∈ p.vv, inBounds p (.int i) = true := by
   simp only [consistent, hn, if_true, Bool.and_eq_true, List.all_eq_true] at hc
-  exact hc.2.2
+  exact hc.2.1.2
+
+theorem consistent_step {p : Props} (hc : consistent p = true) (hn : p.fmt.isNumeric = true) :
+    ∀ s, p.minStep = some s → s.isNumeric = true := by
+  simp only [consistent, hn, if_true, Bool.and_eq_true] at hc
+  exact optAll_some hc.2.2
 
 theorem consistent_vv_nil {p : Props} (hc : consistent p = true) (hn : p.fmt.isNumeric = false) :
     p.vv = [] := by
@@ -277,10 +282,13 @@ theorem toValid_confBase {E : Ext} {p : Props} (hc : consistent p = true) {v v' 
 
 /-! ### exception classes, the valid-values check, the default value -/
 
-/-- Assumption on the external step-rounding expression: on `int`/`float` operands Python's
-    `/`, `*`, `round` raise nothing but `ValueError` (NaN) or `OverflowError` (inf, huge ints). -/
+/-- Assumption on the external step-rounding expression: on `int`/`float`/`bool` operands
+    (the only ones it is evaluated on under a consistent property set) Python's `/`, `*`, `round`
+    raise nothing but `ValueError` (NaN) or `OverflowError` (inf, huge ints).  Nothing is assumed
+    about other operands (a string step raises `TypeError` in Python). -/
 def StepExnOk (E : Ext) : Prop :=
-  ∀ v s e, E.stepRound v s = .error e → e = .valueError ∨ e = .overflowError
+  ∀ v s e, v.isNumeric = true → s.isNumeric = true → E.stepRound v s = .error e →
+    e = .valueError ∨ e = .overflowError
 
 theorem toInt_fin {v : Val} (h : isFinNum v = true) : ∃ i, toInt v = .ok i := by
   cases v with
@@ -295,13 +303,14 @@ theorem toInt_exn {v : Val} {e : Exn} (hv : v.isNumeric = true) (h : toInt v = .
   | _ => simp_all [toInt, Val.isNumeric, Val.num]
 
 theorem stepped_exn {E : Ext} (hE : StepExnOk E) {p : Props} {v : Val} {e : Exn}
+    (hv : v.isNumeric = true) (hstep : ∀ s, p.minStep = some s → s.isNumeric = true)
     (h : stepped E p v = .error e) : e = .valueError ∨ e = .overflowError := by
   unfold stepped at h
   split at h
-  · rename_i s _
+  · rename_i s hs0
     split at h
     · cases hs : E.stepRound v s with
-      | error e' => simp [hs, Except.map] at h; subst h; exact hE _ _ _ hs
+      | error e' => simp [hs, Except.map] at h; subst h; exact hE _ _ _ hv (hstep s hs0) hs
       | ok r => simp [hs, Except.map] at h
     · simp at h
   · simp at h
@@ -318,7 +327,7 @@ theorem toValid_exn {E : Ext} (hE : StepExnOk E) {p : Props} (hc : consistent p 
       have hvn : v.isNumeric = true := by simpa using hvn
       split at h
       · rename_i e' hs
-        simp at h; subst h; exact stepped_exn hE hs
+        simp at h; subst h; exact stepped_exn hE hvn (consistent_step hc hn) hs
       · rename_i v1 hs
         have h1n := stepped_numeric hvn hs
         split at h
@@ -331,12 +340,11 @@ theorem toValid_exn {E : Ext} (hE : StepExnOk E) {p : Props} (hc : consistent p 
   · unfold toValid at h
     cases hf : p.fmt <;> simp_all [Fmt.isNumeric]
 
-theorem validOrRaise_ok {cfg : Cfg} {p : Props} {v : Val}
-    (h : validOrRaise repaired cfg p v = .ok ()) :
-    (cfg.alwaysNull = true ∧ v = .null) ∨ inValid cfg p v = true := by
+theorem validOrRaise_ok {L : Variant} (hL : L.nullSkipsAll = false) {cfg : Cfg} {p : Props} {v : Val}
+    (h : validOrRaise L cfg p v = .ok ()) :
+    (cfg.alwaysNull = true ∧ v = .null) ∨ (p.vv.isEmpty || v.memInts p.vv) = true := by
   unfold validOrRaise at h
-  unfold inValid
-  simp only [repaired, Bool.false_or] at h
+  simp only [hL, Bool.false_or] at h
   split at h
   · rename_i hh
     simp only [Bool.and_eq_true, beq_iff_eq] at hh
@@ -404,6 +412,44 @@ theorem toValid_default_ok (E : Ext) {p : Props} (hc : consistent p = true) :
   · unfold toValid
     cases hf : p.fmt <;> simp_all [Fmt.isNumeric]
 
+/-! ### the three notions of conformance -/
+
+/-- strict conformance: `null` for the always-null type, or base conformance and membership in
+    the declared valid values (no opt-in exemption) -/
+theorem confStrict_of {cfg : Cfg} {p : Props} {v : Val} (h1 : confBase p v = true)
+    (h2 : (cfg.alwaysNull = true ∧ v = .null) ∨ (p.vv.isEmpty || v.memInts p.vv) = true) :
+    confStrict cfg p v = true := by
+  unfold confStrict conf confFmt inValid
+  rcases h2 with ⟨ha, hv⟩ | h2
+  · simp [ha, hv]
+  · simp only [Bool.or_eq_true] at h2
+    rcases h2 with h2 | h2 <;> simp [h1, h2]
+
+theorem conf_of_strict {cfg : Cfg} {p : Props} {v : Val} (h : confStrict cfg p v = true) :
+    conf cfg p v = true := by
+  unfold confStrict conf confFmt inValid at *
+  simp only [Bool.or_eq_true, Bool.and_eq_true, Bool.false_eq_true, or_false] at h ⊢
+  rcases h with h | ⟨h1, h2⟩
+  · exact Or.inl h
+  · right
+    refine ⟨h1, ?_⟩
+    rcases h2 with h2 | h2
+    · exact Or.inl (Or.inl h2)
+    · exact Or.inr h2
+
+theorem confB_of_conf {cfg : Cfg} {p : Props} {v : Val} (h : conf cfg p v = true) :
+    confB cfg p v = true := by
+  unfold conf confFmt at h
+  unfold confB
+  simp only [Bool.or_eq_true, Bool.and_eq_true] at h ⊢
+  rcases h with h | ⟨h1, _⟩
+  · exact Or.inl h
+  · exact Or.inr h1
+
+theorem confB_of_base {cfg : Cfg} {p : Props} {v : Val} (h : confBase p v = true) :
+    confB cfg p v = true := by
+  simp [confB, h]
+
 /-- conformance: `null` for the always-null type, or base conformance and valid-value membership -/
 theorem conf_of {cfg : Cfg} {p : Props} {v : Val} (h1 : confBase p v = true)
     (h2 : (cfg.alwaysNull = true ∧ v = .null) ∨ inValid cfg p v = true) : conf cfg p v = true := by
@@ -415,17 +461,21 @@ theorem conf_of {cfg : Cfg} {p : Props} {v : Val} (h1 : confBase p v = true)
 theorem conf_null {cfg : Cfg} (h : cfg.alwaysNull = true) (p : Props) : conf cfg p .null = true := by
   simp [conf, h]
 
-/-- `_get_default_value` never raises on a consistent set and returns a conforming value -/
+theorem confStrict_null {cfg : Cfg} (h : cfg.alwaysNull = true) (p : Props) :
+    confStrict cfg p .null = true := by
+  simp [confStrict, conf, h]
+
+/-- `_get_default_value` never raises on a consistent set and returns a (strictly) conforming value -/
 theorem default_conf (E : Ext) (cfg : Cfg) {p : Props} (hc : consistent p = true) :
-    ∃ d, defaultValue E cfg p = .ok d ∧ conf cfg p d = true := by
+    ∃ d, defaultValue E cfg p = .ok d ∧ confStrict cfg p d = true := by
   unfold defaultValue
   by_cases ha : cfg.alwaysNull = true
-  · exact ⟨.null, by simp [ha], conf_null ha p⟩
+  · exact ⟨.null, by simp [ha], confStrict_null ha p⟩
   · simp only [ha, Bool.false_eq_true, if_false]
     by_cases hv : p.vv.isEmpty = true
     · simp only [hv, Bool.not_true, Bool.false_eq_true, if_false]
       obtain ⟨d, hd⟩ := toValid_default_ok E hc
-      exact ⟨d, hd, conf_of (toValid_confBase hc hd) (Or.inr (by simp [inValid, hv]))⟩
+      exact ⟨d, hd, confStrict_of (toValid_confBase hc hd) (Or.inr (by simp [hv]))⟩
     · simp only [hv, Bool.not_false, if_true]
       have hne : p.vv ≠ [] := by intro h; simp [h] at hv
       have hmem := minInts_mem hne
@@ -433,178 +483,427 @@ theorem default_conf (E : Ext) (cfg : Cfg) {p : Props} (hc : consistent p = true
         by_cases hn : p.fmt.isNumeric = true
         · exact hn
         · exact absurd (consistent_vv_nil hc (by simpa using hn)) hne
-      refine ⟨_, rfl, conf_of ?_ (Or.inr ?_)⟩
+      refine ⟨_, rfl, confStrict_of ?_ (Or.inr ?_)⟩
       · rw [confBase_numeric hn]; unfold confNum
         have := consistent_vv hc hn _ hmem
         split <;> simp [this, Val.isNumeric, Val.num]
-      · simp [inValid, mem_memInts hmem]
+      · simp [mem_memInts hmem]
 
 
-/-! ### the three operations -/
+/-! ### the operations -/
 
-/-- what one operation must establish: the state afterwards conforms, everything emitted
-    conforms (to the property set in force afterwards, which for writes is the one before) -/
-structure StepOk (cfg : Cfg) (r : Res) : Prop where
-  stored : conf cfg r.st.props r.st.value = true
+/-- what passes the checks of `set_value` conforms strictly -/
+theorem setCheck_ok {E : Ext} {L : Variant} (hL : L.nullSkipsAll = false) {cfg : Cfg} {p : Props}
+    (hc : consistent p = true) {v v' : Val} (h : setCheck E L cfg p v = .ok v') :
+    confStrict cfg p v' = true := by
+  unfold setCheck at h
+  split at h
+  · simp at h
+  · rename_i w hw
+    split at h
+    · simp at h
+    · rename_i hvo
+      simp at h; subst h
+      exact confStrict_of (toValid_confBase hc hw) (validOrRaise_ok hL hvo)
+
+/-- what passes the checks of `client_update_value` conforms (strictly unless the application
+    opted in to invalid controller values) -/
+theorem clientCheck_ok {E : Ext} {L : Variant} (hL : L.nullSkipsAll = false) {cfg : Cfg} {p : Props}
+    (hc : consistent p = true) {v v' : Val} (h : clientCheck E L cfg p v = .ok v') :
+    conf cfg p v' = true ∧ (cfg.allowInvalid = false → confStrict cfg p v' = true) := by
+  unfold clientCheck at h
+  split at h
+  · simp at h
+  · rename_i w hw
+    split at h
+    · simp at h
+    · rename_i hvo
+      simp at h; subst h
+      split at hw
+      · -- converted by to_valid_value
+        have hb := toValid_confBase hc hw
+        split at hvo
+        · have := confStrict_of (cfg := cfg) hb (validOrRaise_ok hL hvo)
+          exact ⟨conf_of_strict this, fun _ => this⟩
+        · rename_i hai
+          simp only [Bool.not_eq_true', Bool.not_eq_false] at hai
+          exact ⟨conf_of hb (Or.inr (by simp [inValid, hai])), fun h => by simp [h] at hai⟩
+      · -- always-null type written with null
+        rename_i hcond
+        simp only [Bool.or_eq_true, Bool.not_eq_true', bne_iff_ne, ne_eq, not_or, Bool.not_eq_false,
+          Decidable.not_not] at hcond
+        simp at hw; subst hw
+        rw [hcond.2]; exact ⟨conf_null hcond.1 _, fun _ => confStrict_null hcond.1 _⟩
+
+/-- the effect of one operation on the invariant: the state is untouched, or the new stored value
+    conforms, or (`weak`: a getter callback answered with an undeclared value) it conforms in
+    format, type, range and length only; everything emitted conforms -/
+structure StepFx (cfg : Cfg) (weak : Bool) (st : St) (r : Res) : Prop where
+  state : r.st = st ∨ conf cfg r.st.props r.st.value = true ∨
+    (weak = true ∧ r.st.props = st.props ∧ confB cfg r.st.props r.st.value = true)
   emitted : ∀ e ∈ r.out, conf cfg r.st.props e.val = true
+
+theorem StepFx.mono {cfg : Cfg} {st : St} {r : Res} {w : Bool} (h : StepFx cfg false st r) :
+    StepFx cfg w st r := by
+  refine ⟨?_, h.emitted⟩
+  rcases h.state with h1 | h1 | ⟨h1, _⟩
+  · exact Or.inl h1
+  · exact Or.inr (Or.inl h1)
+  · cases h1
 
 theorem setValue_props (E : Ext) (L : Variant) (cfg : Cfg) (st : St) (v : Val) (n : Bool) :
     (setValue E L cfg st v n).st.props = st.props := by
   unfold setValue
-  cases h1 : toValid E st.props v with
-  | error e1 => rfl
-  | ok v' =>
-    simp only []
-    cases h2 : validOrRaise L cfg st.props v' with
-    | error e2 => rfl
-    | ok u => rfl
+  cases h1 : setCheck E L cfg st.props v <;> rfl
 
-theorem clientUpdate_props (E : Ext) (L : Variant) (cfg : Cfg) (st : St) (v : Val) :
-    (clientUpdate E L cfg st v).st.props = st.props := by
+theorem clientUpdate_props (E : Ext) (L : Variant) (cfg : Cfg) (st : St) (v : Val) (cb : Cb) :
+    (clientUpdate E L cfg st v cb).st.props = st.props := by
   unfold clientUpdate
-  simp only []
-  cases h1 : (if (!cfg.alwaysNull || v != .null) = true then toValid E st.props v else .ok v) with
+  cases h1 : clientCheck E L cfg st.props v with
   | error e1 => rfl
-  | ok v' =>
-    simp only []
-    cases h2 : (if (!cfg.allowInvalid) = true then validOrRaise L cfg st.props v' else .ok ()) with
-    | error e2 => rfl
-    | ok u => rfl
+  | ok v' => cases cb <;> rfl
 
-theorem setValue_ok {E : Ext} {cfg : Cfg} {st : St} (hc : consistent st.props = true)
-    (hg : conf cfg st.props st.value = true) (v : Val) (n : Bool) :
-    StepOk cfg (setValue E repaired cfg st v n) := by
-  unfold setValue
-  split
-  · exact ⟨hg, by simp⟩
-  · rename_i v' hv
-    split
-    · exact ⟨hg, by simp⟩
-    · rename_i hvo
-      have hconf : conf cfg st.props v' = true :=
-        conf_of (toValid_confBase hc hv) (validOrRaise_ok hvo)
-      constructor
-      · show conf cfg st.props (if cfg.alwaysNull = true then Val.null else v') = true
-        split
-        · rename_i ha; exact conf_null ha _
-        · exact hconf
-      · intro e he
-        show conf cfg st.props e.val = true
-        simp only [] at he
-        split at he
+theorem getValue_props (E : Ext) (L : Variant) (cfg : Cfg) (st : St) (g : Getter) :
+    (getValue E L cfg st g).st.props = st.props := by
+  unfold getValue
+  cases g with
+  | absent => rfl
+  | raises e => rfl
+  | returns x =>
+    simp only []
+    cases h1 : toValid E st.props x with
+    | error e => rfl
+    | ok v =>
+      simp only []
+      cases h2 : (if L.getterChecks = true then validOrRaise L cfg st.props v else .ok ()) <;> rfl
+
+theorem readOp_props (E : Ext) (L : Variant) (cfg : Cfg) (st : St) (g : Getter) (h : Bool) :
+    (readOp E L cfg st g h).st.props = st.props := by
+  unfold readOp; split
+  · rfl
+  · exact getValue_props ..
+
+/-- a successful `set_value` stores and notifies a strictly conforming value: the opt-in to
+    invalid controller values does not exempt application updates -/
+theorem setValue_strict {E : Ext} {L : Variant} (hL : L.nullSkipsAll = false) {cfg : Cfg} {st : St}
+    (hc : consistent st.props = true) (v : Val) (n : Bool)
+    (hok : (setValue E L cfg st v n).exn = none) :
+    confStrict cfg st.props (setValue E L cfg st v n).st.value = true ∧
+    ∀ e ∈ (setValue E L cfg st v n).out, confStrict cfg st.props e.val = true := by
+  unfold setValue at hok ⊢
+  cases h1 : setCheck E L cfg st.props v with
+  | error e => simp [h1] at hok
+  | ok v' =>
+    have hconf := setCheck_ok hL hc h1
+    simp only []
+    constructor
+    · show confStrict cfg st.props (if cfg.alwaysNull = true then Val.null else v') = true
+      split
+      · rename_i ha; exact confStrict_null ha _
+      · exact hconf
+    · intro e he
+      split at he
+      · simp at he; subst he; exact hconf
+      · simp at he
+
+theorem setValue_ok {E : Ext} {L : Variant} (hL : L.nullSkipsAll = false) {cfg : Cfg} {st : St}
+    (hc : consistent st.props = true) (v : Val) (n : Bool) :
+    StepFx cfg false st (setValue E L cfg st v n) := by
+  cases hx : (setValue E L cfg st v n).exn with
+  | none =>
+    obtain ⟨h1, h2⟩ := setValue_strict hL hc v n hx
+    refine ⟨Or.inr (Or.inl ?_), ?_⟩
+    · rw [setValue_props]; exact conf_of_strict h1
+    · intro e he; rw [setValue_props]; exact conf_of_strict (h2 e he)
+  | some e =>
+    unfold setValue at hx ⊢
+    cases h1 : setCheck E L cfg st.props v with
+    | error e1 => exact ⟨Or.inl rfl, by simp⟩
+    | ok v' => simp [h1] at hx
+
+theorem clientUpdate_ok {E : Ext} {L : Variant} (hL : L.nullSkipsAll = false) {cfg : Cfg} {st : St}
+    (hc : consistent st.props = true) (v : Val) (cb : Cb) :
+    StepFx cfg false st (clientUpdate E L cfg st v cb) := by
+  unfold clientUpdate
+  cases h1 : clientCheck E L cfg st.props v with
+  | error e1 => exact ⟨Or.inl rfl, by simp⟩
+  | ok v' =>
+    have hconf := (clientCheck_ok hL hc h1).1
+    have hnull : conf cfg st.props (if cfg.alwaysNull = true then Val.null else v') = true := by
+      split
+      · rename_i ha; exact conf_null ha _
+      · exact hconf
+    cases cb with
+    | raises e =>
+      refine ⟨Or.inr (Or.inl hconf), ?_⟩
+      intro ev he
+      simp at he; subst he; exact hconf
+    | absent =>
+      refine ⟨Or.inr (Or.inl hnull), ?_⟩
+      intro ev he
+      simp only [] at he
+      simp only [List.mem_append] at he
+      rcases he with he | he
+      · simp at he
+      · split at he
         · simp at he; subst he; exact hconf
         · simp at he
-
-theorem clientUpdate_ok {E : Ext} {cfg : Cfg} {st : St} (hc : consistent st.props = true)
-    (hg : conf cfg st.props st.value = true) (v : Val) :
-    StepOk cfg (clientUpdate E repaired cfg st v) := by
-  unfold clientUpdate
-  simp only []
-  split
-  · exact ⟨hg, by simp⟩
-  · rename_i v' hv
-    split
-    · exact ⟨hg, by simp⟩
-    · rename_i hvo
-      have hconf : conf cfg st.props v' = true := by
-        split at hv
-        · -- converted by to_valid_value
-          apply conf_of (toValid_confBase hc hv)
-          split at hvo
-          · exact validOrRaise_ok hvo
-          · rename_i hai
-            right; simp only [Bool.not_eq_true', Bool.not_eq_false] at hai
-            simp [inValid, hai]
-        · -- always-null type written with null
-          rename_i hcond
-          simp only [Bool.or_eq_true, Bool.not_eq_true', bne_iff_ne, ne_eq, not_or, Bool.not_eq_false,
-            Decidable.not_not] at hcond
-          simp at hv; subst hv
-          rw [hcond.2]; exact conf_null hcond.1 _
-      constructor
-      · show conf cfg st.props (if cfg.alwaysNull = true then Val.null else v') = true
-        split
-        · rename_i ha; exact conf_null ha _
-        · exact hconf
-      · intro e he
-        show conf cfg st.props e.val = true
-        simp only [List.mem_append] at he
-        rcases he with he | he
-        · split at he
-          · simp at he; subst he; exact hconf
-          · simp at he
-        · split at he
-          · simp at he; subst he; exact hconf
-          · simp at he
+    | returns =>
+      refine ⟨Or.inr (Or.inl hnull), ?_⟩
+      intro ev he
+      simp only [] at he
+      simp only [List.mem_append] at he
+      rcases he with he | he
+      · simp at he; subst he; exact hconf
+      · split at he
+        · simp at he; subst he; exact hconf
+        · simp at he
 
 /-- a rejected write leaves everything as it was and emits nothing (any variant, any parameters) -/
 theorem setValue_reject {E : Ext} {L : Variant} {cfg : Cfg} {st : St} {v : Val} {n : Bool} {e : Exn}
     (h : (setValue E L cfg st v n).exn = some e) :
     (setValue E L cfg st v n).st = st ∧ (setValue E L cfg st v n).out = [] := by
   unfold setValue at h ⊢
-  cases h1 : toValid E st.props v with
+  cases h1 : setCheck E L cfg st.props v with
   | error e1 => simp
-  | ok v' =>
-    simp only [h1] at h ⊢
-    cases h2 : validOrRaise L cfg st.props v' with
-    | error e2 => simp
-    | ok u => simp [h2] at h
+  | ok v' => simp [h1] at h
 
-theorem clientUpdate_reject {E : Ext} {L : Variant} {cfg : Cfg} {st : St} {v : Val} {e : Exn}
-    (h : (clientUpdate E L cfg st v).exn = some e) :
-    (clientUpdate E L cfg st v).st = st ∧ (clientUpdate E L cfg st v).out = [] := by
-  unfold clientUpdate at h ⊢
-  simp only [] at h ⊢
-  cases h1 : (if (!cfg.alwaysNull || v != .null) = true then toValid E st.props v else .ok v) with
+/-- `set_value` raises exactly when its conversion-and-validation prefix does -/
+theorem setValue_exn (E : Ext) (L : Variant) (cfg : Cfg) (st : St) (v : Val) (n : Bool) (e : Exn) :
+    (setValue E L cfg st v n).exn = some e ↔ setCheck E L cfg st.props v = .error e := by
+  unfold setValue
+  cases h1 : setCheck E L cfg st.props v <;> simp
+
+/-- a controller write refused by conversion / validation: nothing changes, the setter callback is
+    not invoked, nothing is notified -/
+theorem clientUpdate_rejected {E : Ext} {L : Variant} {cfg : Cfg} {st : St} {v : Val} {cb : Cb} {e : Exn}
+    (h : clientCheck E L cfg st.props v = .error e) :
+    clientUpdate E L cfg st v cb = ⟨st, some e, []⟩ := by
+  unfold clientUpdate; simp [h]
+
+/-- `client_update_value` raises exactly when its checks refuse the value or when the checks pass
+    and the application's setter callback (then invoked with the checked value) raises -/
+theorem clientUpdate_exn (E : Ext) (L : Variant) (cfg : Cfg) (st : St) (v : Val) (cb : Cb) (e : Exn) :
+    (clientUpdate E L cfg st v cb).exn = some e ↔
+      clientCheck E L cfg st.props v = .error e ∨
+      (∃ v', clientCheck E L cfg st.props v = .ok v' ∧ cb = .raises e ∧
+        (clientUpdate E L cfg st v cb).out = [.callback v']) := by
+  unfold clientUpdate
+  cases h1 : clientCheck E L cfg st.props v with
   | error e1 => simp
-  | ok v' =>
-    simp only [h1] at h ⊢
-    cases h2 : (if (!cfg.allowInvalid) = true then validOrRaise L cfg st.props v' else .ok ()) with
-    | error e2 => simp
-    | ok u => simp only [Bool.not_eq_true'] at h2; simp [h2] at h
+  | ok v' => cases cb <;> simp
 
+theorem clientUpdate_reject {E : Ext} {L : Variant} {cfg : Cfg} {st : St} {v : Val} {cb : Cb} {e : Exn}
+    (hcb : ∀ e', cb ≠ .raises e') (h : (clientUpdate E L cfg st v cb).exn = some e) :
+    (clientUpdate E L cfg st v cb).st = st ∧ (clientUpdate E L cfg st v cb).out = [] := by
+  rcases (clientUpdate_exn E L cfg st v cb e).mp h with h1 | ⟨_, _, h2, _⟩
+  · rw [clientUpdate_rejected h1]; exact ⟨rfl, rfl⟩
+  · exact absurd h2 (hcb e)
 
-theorem overrideHandler_ok {E : Ext} (cfg : Cfg) {p : Props} (hc : consistent p = true) (cur : Val)
+/-- on success, everything a write emits is the value it assigned -/
+theorem setValue_emits_assigned {E : Ext} {L : Variant} {cfg : Cfg} {st : St} {v v' : Val} {n : Bool}
+    (h : setCheck E L cfg st.props v = .ok v') :
+    (∀ e ∈ (setValue E L cfg st v n).out, e = .notify v') ∧
+    (setValue E L cfg st v n).st.value = (if cfg.alwaysNull then .null else v') := by
+  unfold setValue
+  simp only [h]
+  refine ⟨?_, by first | rfl | trivial⟩
+  intro e he
+  split at he
+  · simpa using he
+  · simp at he
+
+theorem clientUpdate_emits_assigned {E : Ext} {L : Variant} {cfg : Cfg} {st : St} {v v' : Val} {cb : Cb}
+    (h : clientCheck E L cfg st.props v = .ok v') :
+    (∀ e ∈ (clientUpdate E L cfg st v cb).out, e.val = v') ∧
+    ((clientUpdate E L cfg st v cb).st.value = v' ∨
+      (cfg.alwaysNull = true ∧ (clientUpdate E L cfg st v cb).st.value = .null)) := by
+  unfold clientUpdate
+  simp only [h]
+  cases cb with
+  | raises e => exact ⟨by intro ev he; simp at he; subst he; rfl, Or.inl rfl⟩
+  | absent =>
+    refine ⟨?_, ?_⟩
+    · intro ev he
+      simp only [List.mem_append] at he
+      rcases he with he | he
+      · simp at he
+      · split at he
+        · simp at he; subst he; rfl
+        · simp at he
+    · by_cases ha : cfg.alwaysNull = true
+      · right; simp [ha]
+      · left; simp [ha]
+  | returns =>
+    refine ⟨?_, ?_⟩
+    · intro ev he
+      simp only [List.mem_append] at he
+      rcases he with he | he
+      · simp at he; subst he; rfl
+      · split at he
+        · simp at he; subst he; rfl
+        · simp at he
+    · by_cases ha : cfg.alwaysNull = true
+      · right; simp [ha]
+      · left; simp [ha]
+
+/-! #### reads -/
+
+theorem getValue_out (E : Ext) (L : Variant) (cfg : Cfg) (st : St) (g : Getter) :
+    (getValue E L cfg st g).out = [] := by
+  unfold getValue
+  cases g with
+  | absent => rfl
+  | raises e => rfl
+  | returns x =>
+    simp only []
+    cases h1 : toValid E st.props x with
+    | error e => rfl
+    | ok v =>
+      simp only []
+      cases h2 : (if L.getterChecks = true then validOrRaise L cfg st.props v else .ok ()) <;> rfl
+
+theorem readOp_out (E : Ext) (L : Variant) (cfg : Cfg) (st : St) (g : Getter) (h : Bool) :
+    (readOp E L cfg st g h).out = [] := by
+  unfold readOp; split
+  · rfl
+  · exact getValue_out ..
+
+/-- a read that raises (the getter raised, or its answer was refused) changes nothing -/
+theorem readOp_reject {E : Ext} {L : Variant} {cfg : Cfg} {st : St} {g : Getter} {hp : Bool} {e : Exn}
+    (h : (readOp E L cfg st g hp).exn = some e) : (readOp E L cfg st g hp).st = st := by
+  unfold readOp at h ⊢
+  split
+  · rfl
+  · rename_i hh
+    simp only [hh] at h
+    unfold getValue at h ⊢
+    cases g with
+    | absent => rfl
+    | raises e' => rfl
+    | returns x =>
+      simp only [] at h ⊢
+      cases h1 : toValid E st.props x with
+      | error e' => rfl
+      | ok v =>
+        simp only [h1] at h ⊢
+        cases h2 : (if L.getterChecks = true then validOrRaise L cfg st.props v else .ok ()) with
+        | error e' => rfl
+        | ok u => simp [h2] at h
+
+/-- weak outcome allowed for this operation: the variant does not check getter answers and the
+    answer is not acceptable -/
+def weakOp (E : Ext) (L : Variant) (cfg : Cfg) (p : Props) (op : Op) : Bool :=
+  !L.getterChecks && !readOk E cfg p op
+
+theorem validOrRaise_variant (L : Variant) (hL : L.nullSkipsAll = false) (cfg : Cfg) (p : Props) (v : Val) :
+    validOrRaise L cfg p v = validOrRaise repaired cfg p v := by
+  unfold validOrRaise; simp [hL, repaired]
+
+theorem readOp_ok {E : Ext} {L : Variant} (hL : L.nullSkipsAll = false) {cfg : Cfg} {st : St}
+    (hc : consistent st.props = true) (g : Getter) (hp : Bool) :
+    StepFx cfg (weakOp E L cfg st.props (.read g hp)) st (readOp E L cfg st g hp) := by
+  refine ⟨?_, by rw [readOp_out]; simp⟩
+  unfold readOp
+  by_cases hh : (hp && !st.props.readable) = true
+  · simp only [hh, if_true]; exact Or.inl (by first | rfl | trivial)
+  · simp only [hh, Bool.false_eq_true, if_false]
+    unfold getValue
+    cases g with
+    | absent => exact Or.inl rfl
+    | raises e => exact Or.inl rfl
+    | returns x =>
+      simp only []
+      cases h1 : toValid E st.props x with
+      | error e => exact Or.inl rfl
+      | ok v =>
+        have hb := toValid_confBase hc h1
+        simp only []
+        by_cases hg : L.getterChecks = true
+        · simp only [hg, if_true]
+          cases h2 : validOrRaise L cfg st.props v with
+          | error e => exact Or.inl rfl
+          | ok u =>
+            right; left
+            exact conf_of_strict (confStrict_of hb (validOrRaise_ok hL h2))
+        · simp only [hg, Bool.false_eq_true, if_false]
+          cases h2 : validOrRaise repaired cfg st.props v with
+          | ok u =>
+            right; left
+            exact conf_of_strict (confStrict_of hb (validOrRaise_ok rfl h2))
+          | error e =>
+            right; right
+            refine ⟨?_, by first | rfl | trivial, confB_of_base hb⟩
+            have hg' : L.getterChecks = false := by simpa using hg
+            have hh' : (hp && !st.props.readable) = false := by simpa using hh
+            simp [weakOp, readOk, hg', hh', h1, h2]
+
+/-! #### overrides -/
+
+theorem overrideHandler_ok {E : Ext} {L : Variant} (hO : L.overflowEscapes = false) (cfg : Cfg)
+    {p : Props} (hc : consistent p = true) (cur : Val)
     {e : Exn} (he : e = .valueError ∨ e = .overflowError) :
-    ∃ d, overrideHandler E repaired cfg p cur e = ⟨⟨p, d⟩, none, []⟩ ∧ conf cfg p d = true := by
+    ∃ d, overrideHandler E L cfg p cur e = ⟨⟨p, d⟩, none, []⟩ ∧ confStrict cfg p d = true := by
   obtain ⟨d, hd, hconf⟩ := default_conf E cfg hc
   refine ⟨d, ?_, hconf⟩
   unfold overrideHandler
-  rcases he with rfl | rfl <;> simp [repaired, hd]
+  rcases he with rfl | rfl <;> simp [hO, hd]
 
-/-- `override_properties` (repaired): either rejected up front with nothing changed, or the new
-    property set is in force, nothing is emitted, no exception escapes and the stored value
-    conforms to the new set (re-validated, or replaced by the conforming default). -/
-theorem override_ok {E : Ext} (hE : StepExnOk E) {cfg : Cfg} {st : St} (u : Upd) (vv : List Int)
+/-- an `override_properties` that is not refused up front: the new property set is in force,
+    nothing is emitted, no exception escapes and the stored value conforms strictly to the new set
+    (re-validated, or replaced by the conforming default). -/
+theorem override_accepted {E : Ext} (hE : StepExnOk E) {L : Variant} (hL : L.sound = true) {cfg : Cfg} {st : St}
+    (u : Upd) (vv : List Int) (hr : overrideRefused u vv = false)
     (hc' : consistent (overrideProps st.props u vv) = true) :
-    override E repaired cfg st u vv = ⟨st, some .valueError, []⟩ ∨
-    ((override E repaired cfg st u vv).exn = none ∧ (override E repaired cfg st u vv).out = [] ∧
-     (override E repaired cfg st u vv).st.props = overrideProps st.props u vv ∧
-     conf cfg (overrideProps st.props u vv) (override E repaired cfg st u vv).st.value = true) := by
+    (override E L cfg st u vv).exn = none ∧ (override E L cfg st u vv).out = [] ∧
+     (override E L cfg st u vv).st.props = overrideProps st.props u vv ∧
+     confStrict cfg (overrideProps st.props u vv) (override E L cfg st u vv).st.value = true := by
+  have hN : L.nullSkipsAll = false := by
+    simp only [Variant.sound, Bool.and_eq_true, Bool.not_eq_true'] at hL; exact hL.1
+  have hO : L.overflowEscapes = false := by
+    simp only [Variant.sound, Bool.and_eq_true, Bool.not_eq_true'] at hL; exact hL.2
+  unfold overrideRefused at hr
+  simp only [Bool.or_eq_false_iff] at hr
+  obtain ⟨h1, h2⟩ := hr
   unfold override
-  by_cases h1 : (u.isEmpty && vv.isEmpty) = true
-  · left; simp [h1]
-  · by_cases h2 : tooLong u.maxLen = true
-    · left; simp [h1, h2]
-    · right
-      simp only [h1, h2, Bool.false_eq_true, if_false]
-      by_cases ha : cfg.alwaysNull = true
-      · simp only [ha, if_true]; exact ⟨by first | rfl | trivial, by first | rfl | trivial, by first | rfl | trivial, conf_null ha _⟩
-      · simp only [ha, Bool.false_eq_true, if_false]
-        cases hv : toValid E (overrideProps st.props u vv) st.value with
-        | error e =>
-          obtain ⟨d, hd, hconf⟩ := overrideHandler_ok (E := E) cfg hc' st.value (toValid_exn hE hc' hv)
-          simp only [hd]; exact ⟨by first | rfl | trivial, by first | rfl | trivial, by first | rfl | trivial, hconf⟩
-        | ok v =>
-          simp only []
-          cases hvo : validOrRaise repaired cfg (overrideProps st.props u vv) v with
-          | ok _ =>
-            exact ⟨by first | rfl | trivial, by first | rfl | trivial, by first | rfl | trivial, conf_of (toValid_confBase hc' hv) (validOrRaise_ok hvo)⟩
-          | error e =>
-            obtain ⟨d, hd, hconf⟩ :=
-              overrideHandler_ok (E := E) cfg hc' v (Or.inl (validOrRaise_exn hvo))
-            simp only [hd]; exact ⟨by first | rfl | trivial, by first | rfl | trivial, by first | rfl | trivial, hconf⟩
+  simp only [h1, h2, Bool.false_eq_true, if_false]
+  by_cases ha : cfg.alwaysNull = true
+  · simp only [ha, if_true]; exact ⟨by first | rfl | trivial, by first | rfl | trivial, by first | rfl | trivial, confStrict_null ha _⟩
+  · simp only [ha, Bool.false_eq_true, if_false]
+    cases hv : toValid E (overrideProps st.props u vv) st.value with
+    | error e =>
+      obtain ⟨d, hd, hconf⟩ := overrideHandler_ok (E := E) hO cfg hc' st.value (toValid_exn hE hc' hv)
+      simp only [hd]; exact ⟨by first | rfl | trivial, by first | rfl | trivial, by first | rfl | trivial, hconf⟩
+    | ok v =>
+      simp only []
+      cases hvo : validOrRaise L cfg (overrideProps st.props u vv) v with
+      | ok _ =>
+        exact ⟨by first | rfl | trivial, by first | rfl | trivial, by first | rfl | trivial, confStrict_of (toValid_confBase hc' hv) (validOrRaise_ok hN hvo)⟩
+      | error e =>
+        obtain ⟨d, hd, hconf⟩ :=
+          overrideHandler_ok (E := E) hO cfg hc' v (Or.inl (validOrRaise_exn hvo))
+        simp only [hd]; exact ⟨by first | rfl | trivial, by first | rfl | trivial, by first | rfl | trivial, hconf⟩
 
+/-- a refused `override_properties` changes nothing (any variant) -/
+theorem override_refused (E : Ext) (L : Variant) (cfg : Cfg) (st : St) (u : Upd) (vv : List Int)
+    (hr : overrideRefused u vv = true) : override E L cfg st u vv = ⟨st, some .valueError, []⟩ := by
+  unfold override overrideRefused at *
+  by_cases h1 : (u.isEmpty && vv.isEmpty) = true
+  · simp [h1]
+  · simp only [h1, Bool.false_or] at hr
+    simp [h1, hr]
+
+/-- `override_properties` (repaired): either rejected up front with nothing changed, or accepted -/
+theorem override_ok {E : Ext} (hE : StepExnOk E) {L : Variant} (hL : L.sound = true) {cfg : Cfg} {st : St}
+    (u : Upd) (vv : List Int)
+    (hc' : consistent (overrideProps st.props u vv) = true) :
+    override E L cfg st u vv = ⟨st, some .valueError, []⟩ ∨
+    ((override E L cfg st u vv).exn = none ∧ (override E L cfg st u vv).out = [] ∧
+     (override E L cfg st u vv).st.props = overrideProps st.props u vv ∧
+     confStrict cfg (overrideProps st.props u vv) (override E L cfg st u vv).st.value = true) := by
+  cases hr : overrideRefused u vv with
+  | true => exact Or.inl (override_refused E L cfg st u vv hr)
+  | false => exact Or.inr (override_accepted hE hL u vv hr hc')
 
 theorem overrideHandler_props (E : Ext) (L : Variant) (cfg : Cfg) (p : Props) (cur : Val) (e : Exn) :
     (overrideHandler E L cfg p cur e).st.props = p ∧ (overrideHandler E L cfg p cur e).out = [] := by
@@ -616,16 +915,16 @@ theorem overrideHandler_props (E : Ext) (L : Variant) (cfg : Cfg) (p : Props) (c
 /-- an override is either rejected up front (nothing changes) or installs the new property set;
     it never emits anything (any variant) -/
 theorem override_props_cases (E : Ext) (L : Variant) (cfg : Cfg) (st : St) (u : Upd) (vv : List Int) :
-    override E L cfg st u vv = ⟨st, some .valueError, []⟩ ∨
-    ((override E L cfg st u vv).st.props = overrideProps st.props u vv ∧
+    (overrideRefused u vv = true ∧ override E L cfg st u vv = ⟨st, some .valueError, []⟩) ∨
+    (overrideRefused u vv = false ∧ (override E L cfg st u vv).st.props = overrideProps st.props u vv ∧
      (override E L cfg st u vv).out = []) := by
-  unfold override
+  unfold override overrideRefused
   by_cases h1 : (u.isEmpty && vv.isEmpty) = true
   · left; simp [h1]
   · by_cases h2 : tooLong u.maxLen = true
     · left; simp [h1, h2]
     · right
-      simp only [h1, h2, Bool.false_eq_true, if_false]
+      simp only [h1, h2, Bool.false_eq_true, if_false, Bool.or_self, true_and]
       by_cases ha : cfg.alwaysNull = true
       · simp only [ha, if_true]; exact ⟨by first | rfl | trivial, by first | rfl | trivial⟩
       · simp only [ha, Bool.false_eq_true, if_false]
@@ -637,33 +936,35 @@ theorem override_props_cases (E : Ext) (L : Variant) (cfg : Cfg) (st : St) (u : 
           | ok _ => exact ⟨rfl, rfl⟩
           | error e => exact overrideHandler_props ..
 
-theorem override_stepOk {E : Ext} (hE : StepExnOk E) {cfg : Cfg} {st : St}
-    (hg : conf cfg st.props st.value = true) (u : Upd) (vv : List Int)
-    (hc' : consistent (override E repaired cfg st u vv).st.props = true) :
-    StepOk cfg (override E repaired cfg st u vv) := by
-  rcases override_props_cases E repaired cfg st u vv with h | ⟨hp, _⟩
-  · rw [h]; exact ⟨hg, by simp⟩
+theorem override_props (E : Ext) (L : Variant) (cfg : Cfg) (st : St) (u : Upd) (vv : List Int) :
+    (override E L cfg st u vv).st.props = propsAfter st.props (.override u vv) := by
+  rcases override_props_cases E L cfg st u vv with ⟨hr, h⟩ | ⟨hr, hp, _⟩
+  · rw [h]; simp [propsAfter, hr]
+  · rw [hp]; simp [propsAfter, hr]
+
+theorem override_stepOk {E : Ext} (hE : StepExnOk E) {L : Variant} (hL : L.sound = true) {cfg : Cfg} {st : St}
+    (u : Upd) (vv : List Int)
+    (hc' : consistent (override E L cfg st u vv).st.props = true) :
+    StepFx cfg false st (override E L cfg st u vv) := by
+  rcases override_props_cases E L cfg st u vv with ⟨_, h⟩ | ⟨_, hp, _⟩
+  · rw [h]; exact ⟨Or.inl rfl, by simp⟩
   · rw [hp] at hc'
-    rcases override_ok hE (cfg := cfg) (st := st) u vv hc' with h | ⟨_, ho, hp', hconf⟩
-    · rw [h]; exact ⟨hg, by simp⟩
-    · exact ⟨by rw [hp']; exact hconf, by rw [ho]; simp⟩
+    rcases override_ok hE hL (cfg := cfg) (st := st) u vv hc' with h | ⟨_, ho, hp', hconf⟩
+    · rw [h]; exact ⟨Or.inl rfl, by simp⟩
+    · exact ⟨Or.inr (Or.inl (by rw [hp']; exact conf_of_strict hconf)), by rw [ho]; simp⟩
 
 theorem override_out (E : Ext) (L : Variant) (cfg : Cfg) (st : St) (u : Upd) (vv : List Int) :
     (override E L cfg st u vv).out = [] := by
-  rcases override_props_cases E L cfg st u vv with h | ⟨_, h⟩
+  rcases override_props_cases E L cfg st u vv with ⟨_, h⟩ | ⟨_, _, h⟩
   · rw [h]
   · exact h
 
 theorem setValue_silent (E : Ext) (L : Variant) (cfg : Cfg) (st : St) (v : Val) :
     (setValue E L cfg st v false).out = [] := by
   unfold setValue
-  cases h1 : toValid E st.props v with
+  cases h1 : setCheck E L cfg st.props v with
   | error e1 => rfl
-  | ok v' =>
-    simp only []
-    cases h2 : validOrRaise L cfg st.props v' with
-    | error e2 => rfl
-    | ok u => simp
+  | ok v' => simp
 
 theorem configurePre_out (E : Ext) (L : Variant) (cfg : Cfg) (st : St) (u : Upd) (vv : List Int) :
     (configurePre E L cfg st u vv).out = [] := by
@@ -671,14 +972,14 @@ theorem configurePre_out (E : Ext) (L : Variant) (cfg : Cfg) (st : St) (u : Upd)
   · exact override_out ..
   · rfl
 
-theorem configurePre_stepOk {E : Ext} (hE : StepExnOk E) {cfg : Cfg} {st : St}
-    (hg : conf cfg st.props st.value = true) (u : Upd) (vv : List Int)
-    (hc' : consistent (configurePre E repaired cfg st u vv).st.props = true) :
-    StepOk cfg (configurePre E repaired cfg st u vv) := by
+theorem configurePre_stepOk {E : Ext} (hE : StepExnOk E) {L : Variant} (hL : L.sound = true) {cfg : Cfg} {st : St}
+    (u : Upd) (vv : List Int)
+    (hc' : consistent (configurePre E L cfg st u vv).st.props = true) :
+    StepFx cfg false st (configurePre E L cfg st u vv) := by
   unfold configurePre at hc' ⊢
   split
-  · rename_i h; simp only [h, if_true] at hc'; exact override_stepOk hE hg u vv hc'
-  · exact ⟨hg, by simp⟩
+  · rename_i h; simp only [h, if_true] at hc'; exact override_stepOk hE hL u vv hc'
+  · exact ⟨Or.inl rfl, by simp⟩
 
 /-- `configure_char` never emits (its `set_value` is called with `should_notify=False`) -/
 theorem configure_out (E : Ext) (L : Variant) (cfg : Cfg) (st : St) (u : Upd) (vv : List Int) (v : Val) :
@@ -701,22 +1002,39 @@ theorem configure_props (E : Ext) (L : Variant) (cfg : Cfg) (st : St) (u : Upd) 
     · exact setValue_props ..
     · rfl
 
-theorem configure_ok {E : Ext} (hE : StepExnOk E) {cfg : Cfg} {st : St}
-    (hg : conf cfg st.props st.value = true) (u : Upd) (vv : List Int) (v : Val)
-    (hc' : consistent (configure E repaired cfg st u vv v).st.props = true) :
-    StepOk cfg (configure E repaired cfg st u vv v) := by
+theorem configurePre_props (E : Ext) (L : Variant) (cfg : Cfg) (st : St) (u : Upd) (vv : List Int) (v : Val) :
+    (configurePre E L cfg st u vv).st.props = propsAfter st.props (.configure u vv v) := by
+  unfold configurePre
+  by_cases h : (!u.isEmpty || !vv.isEmpty) = true
+  · simp only [h, if_true]
+    rw [override_props]
+    simp only [propsAfter, h, Bool.true_and]
+    cases overrideRefused u vv <;> simp
+  · simp [propsAfter, h]
+
+theorem configure_ok {E : Ext} (hE : StepExnOk E) {L : Variant} (hL : L.sound = true) {cfg : Cfg} {st : St}
+    (u : Upd) (vv : List Int) (v : Val)
+    (hc' : consistent (configure E L cfg st u vv v).st.props = true) :
+    StepFx cfg false st (configure E L cfg st u vv v) := by
+  have hN : L.nullSkipsAll = false := by
+    simp only [Variant.sound, Bool.and_eq_true, Bool.not_eq_true'] at hL; exact hL.1
   rw [configure_props] at hc'
-  have h1 := configurePre_stepOk hE hg u vv hc'
+  have h1 := configurePre_stepOk hE hL u vv hc'
   unfold configure
   simp only []
   split
   · exact h1
   · split
-    · have h2 := setValue_ok (E := E) hc' h1.stored v false
-      exact ⟨h2.stored, by
-        intro e he
+    · have h2 := setValue_ok (E := E) hN (cfg := cfg) hc' v false
+      refine ⟨?_, ?_⟩
+      · rcases h2.state with h2s | h2s | ⟨hf, _⟩
+        · show (setValue E L cfg (configurePre E L cfg st u vv).st v false).st = st ∨ _
+          rw [h2s]; exact h1.state
+        · exact Or.inr (Or.inl h2s)
+        · cases hf
+      · intro e he
         simp only [configurePre_out, List.nil_append] at he
-        exact h2.emitted e he⟩
+        exact h2.emitted e he
     · exact h1
 
 /-- what a raising `configure_char` leaves behind: nothing if the override part raised (it can
@@ -735,53 +1053,133 @@ theorem configure_reject_state {E : Ext} {L : Variant} {cfg : Cfg} {st : St} {u 
       exact (setValue_reject h).1
     · rfl
 
-theorem step_ok {E : Ext} (hE : StepExnOk E) {cfg : Cfg} {st : St} (hc : consistent st.props = true)
-    (hg : conf cfg st.props st.value = true) (op : Op)
-    (hc' : consistent (step E repaired cfg st op).st.props = true) :
-    StepOk cfg (step E repaired cfg st op) := by
+/-! #### one step, whole histories -/
+
+/-- the property set after an operation is `propsAfter`: it does not depend on the stored value,
+    the variant, the configuration or the external parameters -/
+theorem step_props (E : Ext) (L : Variant) (cfg : Cfg) (st : St) (op : Op) :
+    (step E L cfg st op).st.props = propsAfter st.props op := by
   cases op with
-  | set v n => exact setValue_ok hc hg v n
-  | client v => exact clientUpdate_ok hc hg v
-  | override u vv => exact override_stepOk hE hg u vv hc'
-  | configure u vv v => exact configure_ok hE hg u vv v hc'
+  | set v n => exact setValue_props ..
+  | client v cb => exact clientUpdate_props ..
+  | override u vv => exact override_props ..
+  | configure u vv v => simp only [step]; rw [configure_props, configurePre_props E L cfg st u vv v]
+  | read g h => exact readOp_props ..
+
+theorem step_fx {E : Ext} (hE : StepExnOk E) {L : Variant} (hL : L.sound = true) {cfg : Cfg} {st : St}
+    (hc : consistent st.props = true) (op : Op)
+    (hc' : consistent (propsAfter st.props op) = true) :
+    StepFx cfg (weakOp E L cfg st.props op) st (step E L cfg st op) := by
+  have hN : L.nullSkipsAll = false := by
+    simp only [Variant.sound, Bool.and_eq_true, Bool.not_eq_true'] at hL; exact hL.1
+  rw [← step_props E L cfg st op] at hc'
+  cases op with
+  | set v n => exact (setValue_ok hN hc v n).mono
+  | client v cb => exact (clientUpdate_ok hN hc v cb).mono
+  | override u vv => exact (override_stepOk hE hL u vv hc').mono
+  | configure u vv v => exact (configure_ok hE hL u vv v hc').mono
+  | read g h => exact readOp_ok hN hc g h
+
+/-- an `override_properties` that raises leaves the whole state as it was and emits nothing -/
+theorem override_reject {E : Ext} (hE : StepExnOk E) {L : Variant} (hL : L.sound = true) {cfg : Cfg} {st : St}
+    (u : Upd) (vv : List Int)
+    (hc' : consistent (propsAfter st.props (.override u vv)) = true) {e : Exn}
+    (h : (override E L cfg st u vv).exn = some e) :
+    (override E L cfg st u vv).st = st ∧ (override E L cfg st u vv).out = [] := by
+  rw [← override_props E L cfg st u vv] at hc'
+  rcases override_props_cases E L cfg st u vv with ⟨_, h'⟩ | ⟨_, hp, _⟩
+  · rw [h']; exact ⟨rfl, rfl⟩
+  · rw [hp] at hc'
+    rcases override_ok hE hL (cfg := cfg) (st := st) u vv hc' with h' | ⟨hn, _⟩
+    · rw [h']; exact ⟨rfl, rfl⟩
+    · rw [hn] at h; cases h
+
+/-- operations whose exception is, by definition, a refusal by the characteristic itself (not an
+    exception of an application callback, and not `configure_char`, which is two calls) -/
+def plainOp : Op → Bool
+  | .client _ (.raises _) => false
+  | .configure _ _ _ => false
+  | _ => true
 
 /-- an operation that raises leaves the whole state as it was and emits nothing -/
-theorem step_reject {E : Ext} (hE : StepExnOk E) {cfg : Cfg} {st : St} (op : Op)
-    (hop : ∀ u vv v, op ≠ .configure u vv v)
-    (hc' : consistent (step E repaired cfg st op).st.props = true) {e : Exn}
-    (h : (step E repaired cfg st op).exn = some e) :
-    (step E repaired cfg st op).st = st ∧ (step E repaired cfg st op).out = [] := by
+theorem step_reject {E : Ext} (hE : StepExnOk E) {L : Variant} (hL : L.sound = true) {cfg : Cfg} {st : St}
+    (op : Op) (hop : plainOp op = true)
+    (hc' : consistent (propsAfter st.props op) = true) {e : Exn}
+    (h : (step E L cfg st op).exn = some e) :
+    (step E L cfg st op).st = st ∧ (step E L cfg st op).out = [] := by
   cases op with
   | set v n => exact setValue_reject h
-  | client v => exact clientUpdate_reject h
-  | override u vv =>
-    simp only [step] at hc' h ⊢
-    rcases override_props_cases E repaired cfg st u vv with h' | ⟨hp, _⟩
-    · rw [h']; exact ⟨rfl, rfl⟩
-    · rw [hp] at hc'
-      rcases override_ok hE (cfg := cfg) (st := st) u vv hc' with h' | ⟨hn, _⟩
-      · rw [h']; exact ⟨rfl, rfl⟩
-      · rw [hn] at h; cases h
-  | configure u vv v => exact absurd rfl (hop u vv v)
+  | client v cb =>
+    refine clientUpdate_reject ?_ h
+    intro e' he; subst he; simp [plainOp] at hop
+  | override u vv => exact override_reject hE hL u vv hc' h
+  | configure u vv v => simp [plainOp] at hop
+  | read g hp => exact ⟨readOp_reject h, readOp_out ..⟩
 
-theorem AllConsistent.head {E : Ext} {L : Variant} {cfg : Cfg} {st : St} {ops : List Op}
-    (h : AllConsistent E L cfg st ops) : consistent st.props = true := by
+theorem consistentAlong_head {p : Props} {ops : List Op} (h : consistentAlong p ops = true) :
+    consistent p = true := by
   cases ops with
   | nil => exact h
-  | cons _ _ => exact h.1
+  | cons _ _ => simp only [consistentAlong, Bool.and_eq_true] at h; exact h.1
 
-/-- the invariant over whole histories -/
-theorem run_ok {E : Ext} (hE : StepExnOk E) {cfg : Cfg} (ops : List Op) :
-    ∀ st : St, AllConsistent E repaired cfg st ops → conf cfg st.props st.value = true →
-      conf cfg (runSt E repaired cfg st ops).props (runSt E repaired cfg st ops).value = true ∧
-      ∀ pe ∈ runLog E repaired cfg st ops, conf cfg pe.1 pe.2.val = true := by
+/-- **the invariant over whole histories**: under a variant that checks getter answers, or when
+    every getter answer is acceptable -/
+theorem run_ok {E : Ext} (hE : StepExnOk E) {L : Variant} (hL : L.sound = true) {cfg : Cfg} (ops : List Op) :
+    ∀ st : St, consistentAlong st.props ops = true →
+      (L.getterChecks = true ∨ readsOkAlong E cfg st.props ops = true) →
+      conf cfg st.props st.value = true →
+      conf cfg (runSt E L cfg st ops).props (runSt E L cfg st ops).value = true ∧
+      ∀ pe ∈ runLog E L cfg st ops, conf cfg pe.1 pe.2.val = true := by
+  induction ops with
+  | nil => intro st _ _ hg; exact ⟨hg, by simp [runLog]⟩
+  | cons op ops ih =>
+    intro st hall hr hg
+    simp only [consistentAlong, Bool.and_eq_true] at hall
+    obtain ⟨hc, hrest⟩ := hall
+    have hs := step_fx hE hL (cfg := cfg) (st := st) hc op (consistentAlong_head hrest)
+    have hw : weakOp E L cfg st.props op = false := by
+      rcases hr with hr | hr
+      · simp [weakOp, hr]
+      · simp only [readsOkAlong, Bool.and_eq_true] at hr
+        simp [weakOp, hr.1]
+    have hr' : L.getterChecks = true ∨ readsOkAlong E cfg (step E L cfg st op).st.props ops = true := by
+      rcases hr with hr | hr
+      · exact Or.inl hr
+      · simp only [readsOkAlong, Bool.and_eq_true] at hr
+        right; rw [step_props]; exact hr.2
+    have hstored : conf cfg (step E L cfg st op).st.props (step E L cfg st op).st.value = true := by
+      rcases hs.state with h | h | ⟨h, _⟩
+      · rw [h]; exact hg
+      · exact h
+      · rw [hw] at h; cases h
+    obtain ⟨h1, h2⟩ := ih _ (by rw [step_props]; exact hrest) hr' hstored
+    refine ⟨h1, ?_⟩
+    intro pe hpe
+    simp only [runLog, List.mem_append, List.mem_map] at hpe
+    rcases hpe with ⟨e, he, rfl⟩ | hpe
+    · exact hs.emitted e he
+    · exact h2 pe hpe
+
+/-- **the base invariant over whole histories, arbitrary getter answers included**: the stored
+    value always conforms in format, type, range and length; everything emitted conforms fully -/
+theorem run_base {E : Ext} (hE : StepExnOk E) {L : Variant} (hL : L.sound = true) {cfg : Cfg} (ops : List Op) :
+    ∀ st : St, consistentAlong st.props ops = true →
+      confB cfg st.props st.value = true →
+      confB cfg (runSt E L cfg st ops).props (runSt E L cfg st ops).value = true ∧
+      ∀ pe ∈ runLog E L cfg st ops, conf cfg pe.1 pe.2.val = true := by
   induction ops with
   | nil => intro st _ hg; exact ⟨hg, by simp [runLog]⟩
   | cons op ops ih =>
     intro st hall hg
+    simp only [consistentAlong, Bool.and_eq_true] at hall
     obtain ⟨hc, hrest⟩ := hall
-    have hs := step_ok hE hc hg op hrest.head
-    obtain ⟨h1, h2⟩ := ih _ hrest hs.stored
+    have hs := step_fx hE hL (cfg := cfg) (st := st) hc op (consistentAlong_head hrest)
+    have hstored : confB cfg (step E L cfg st op).st.props (step E L cfg st op).st.value = true := by
+      rcases hs.state with h | h | ⟨_, _, h⟩
+      · rw [h]; exact hg
+      · exact confB_of_conf h
+      · exact h
+    obtain ⟨h1, h2⟩ := ih _ (by rw [step_props]; exact hrest) hstored
     refine ⟨h1, ?_⟩
     intro pe hpe
     simp only [runLog, List.mem_append, List.mem_map] at hpe
@@ -790,25 +1188,65 @@ theorem run_ok {E : Ext} (hE : StepExnOk E) {cfg : Cfg} (ops : List Op) :
     · exact h2 pe hpe
 
 /-- without overrides the property set never changes, so consistency of the declared set suffices -/
-theorem allConsistent_of_noOverride (E : Ext) (L : Variant) (cfg : Cfg) (ops : List Op) :
-    ∀ st : St, noOverride ops = true → consistent st.props = true → AllConsistent E L cfg st ops := by
+theorem consistentAlong_of_noOverride (ops : List Op) :
+    ∀ p : Props, noOverride ops = true → consistent p = true → consistentAlong p ops = true := by
   induction ops with
-  | nil => intro st _ hc; exact hc
+  | nil => intro p _ hc; exact hc
   | cons op ops ih =>
-    intro st hno hc
+    intro p hno hc
     cases op with
-    | set v n =>
-      refine ⟨hc, ih _ (by simpa [noOverride] using hno) ?_⟩
-      simp only [step]; rw [setValue_props]; exact hc
-    | client v =>
-      refine ⟨hc, ih _ (by simpa [noOverride] using hno) ?_⟩
-      simp only [step]; rw [clientUpdate_props]; exact hc
     | override u vv => simp [noOverride] at hno
     | configure u vv v => simp [noOverride] at hno
+    | set v n => simp only [consistentAlong, hc, Bool.true_and, propsAfter]; exact ih p (by simpa [noOverride] using hno) hc
+    | client v cb => simp only [consistentAlong, hc, Bool.true_and, propsAfter]; exact ih p (by simpa [noOverride] using hno) hc
+    | read g h => simp only [consistentAlong, hc, Bool.true_and, propsAfter]; exact ih p (by simpa [noOverride] using hno) hc
 
-/-- `__init__`: a consistent set yields a conforming initial value -/
+/-- without getter answers every read is acceptable -/
+theorem readsOkAlong_of_noGetter (E : Ext) (cfg : Cfg) (ops : List Op) :
+    ∀ p : Props, noGetter ops = true → readsOkAlong E cfg p ops = true := by
+  induction ops with
+  | nil => intro p _; rfl
+  | cons op ops ih =>
+    intro p hno
+    cases op with
+    | read g h =>
+      cases g with
+      | returns x => simp [noGetter] at hno
+      | absent => simp only [readsOkAlong, readOk, Bool.true_and]; exact ih _ (by simpa [noGetter] using hno)
+      | raises e => simp only [readsOkAlong, readOk, Bool.true_and]; exact ih _ (by simpa [noGetter] using hno)
+    | set v n => simp only [readsOkAlong, readOk, Bool.true_and]; exact ih _ (by simpa [noGetter] using hno)
+    | client v cb => simp only [readsOkAlong, readOk, Bool.true_and]; exact ih _ (by simpa [noGetter] using hno)
+    | override u vv => simp only [readsOkAlong, readOk, Bool.true_and]; exact ih _ (by simpa [noGetter] using hno)
+    | configure u vv v => simp only [readsOkAlong, readOk, Bool.true_and]; exact ih _ (by simpa [noGetter] using hno)
+
+/-- the history restricted to a prefix satisfies the same input conditions -/
+theorem consistentAlong_take (ops : List Op) :
+    ∀ (p : Props) (n : Nat), consistentAlong p ops = true → consistentAlong p (ops.take n) = true := by
+  induction ops with
+  | nil => intro p n h; simpa using h
+  | cons op ops ih =>
+    intro p n h
+    cases n with
+    | zero => simp only [List.take_zero, consistentAlong]; exact consistentAlong_head h
+    | succ n =>
+      simp only [consistentAlong, Bool.and_eq_true, List.take_succ_cons] at h ⊢
+      exact ⟨h.1, ih _ n h.2⟩
+
+theorem readsOkAlong_take (E : Ext) (cfg : Cfg) (ops : List Op) :
+    ∀ (p : Props) (n : Nat), readsOkAlong E cfg p ops = true → readsOkAlong E cfg p (ops.take n) = true := by
+  induction ops with
+  | nil => intro p n h; simpa using h
+  | cons op ops ih =>
+    intro p n h
+    cases n with
+    | zero => rfl
+    | succ n =>
+      simp only [readsOkAlong, Bool.and_eq_true, List.take_succ_cons] at h ⊢
+      exact ⟨h.1, ih _ n h.2⟩
+
+/-- `__init__`: a consistent set yields a (strictly) conforming initial value -/
 theorem init_ok (E : Ext) (cfg : Cfg) {p : Props} (hc : consistent p = true) :
-    ∃ st, init E cfg p = .ok st ∧ st.props = p ∧ conf cfg p st.value = true := by
+    ∃ st, init E cfg p = .ok st ∧ st.props = p ∧ confStrict cfg p st.value = true := by
   obtain ⟨d, hd, hconf⟩ := default_conf E cfg hc
   have hl : tooLong p.maxLen = false := by
     simp only [consistent, Bool.and_eq_true] at hc
@@ -824,17 +1262,14 @@ theorem init_ok (E : Ext) (cfg : Cfg) {p : Props} (hc : consistent p = true) :
 theorem shipped_all_consistent : shipped.all (fun d => consistent d.props) = true := by
   decide +kernel
 
+/-! #### the always-null type -/
 
 theorem setValue_null {E : Ext} {L : Variant} {cfg : Cfg} (ha : cfg.alwaysNull = true) {st : St}
     (hv : st.value = .null) (v : Val) (n : Bool) : (setValue E L cfg st v n).st.value = .null := by
   unfold setValue
-  cases h1 : toValid E st.props v with
+  cases h1 : setCheck E L cfg st.props v with
   | error e1 => exact hv
-  | ok v' =>
-    simp only []
-    cases h2 : validOrRaise L cfg st.props v' with
-    | error e2 => exact hv
-    | ok u => simp [ha]
+  | ok v' => simp [ha]
 
 theorem override_null {E : Ext} {L : Variant} {cfg : Cfg} (ha : cfg.alwaysNull = true) {st : St}
     (hv : st.value = .null) (u : Upd) (vv : List Int) : (override E L cfg st u vv).st.value = .null := by
@@ -845,22 +1280,29 @@ theorem override_null {E : Ext} {L : Variant} {cfg : Cfg} (ha : cfg.alwaysNull =
     · simp [h1, h2, hv]
     · simp [h1, h2, ha]
 
+/-- operations after which the always-null type is back at `null`: everything except a controller
+    write whose setter callback raises (the reset is skipped) and a getter answer (it is stored) -/
+def resetsNull : Op → Bool
+  | .client _ (.raises _) => false
+  | .read (.returns _) _ => false
+  | _ => true
+
 /-- the always-null type never keeps a value: whatever the operation and its outcome, the
     stored (hence reported) value stays `null` -/
 theorem step_alwaysNull {E : Ext} {L : Variant} {cfg : Cfg} (ha : cfg.alwaysNull = true) {st : St}
-    (hv : st.value = .null) (op : Op) : (step E L cfg st op).st.value = .null := by
+    (hv : st.value = .null) (op : Op) (hq : resetsNull op = true) :
+    (step E L cfg st op).st.value = .null := by
   cases op with
   | set v n => exact setValue_null ha hv v n
-  | client v =>
+  | client v cb =>
     simp only [step]; unfold clientUpdate
-    simp only []
-    cases h1 : (if (!cfg.alwaysNull || v != .null) = true then toValid E st.props v else .ok v) with
+    cases h1 : clientCheck E L cfg st.props v with
     | error e1 => exact hv
     | ok v' =>
-      simp only []
-      cases h2 : (if (!cfg.allowInvalid) = true then validOrRaise L cfg st.props v' else .ok ()) with
-      | error e2 => exact hv
-      | ok u => simp [ha]
+      cases cb with
+      | raises e => simp [resetsNull] at hq
+      | absent => simp [ha]
+      | returns => simp [ha]
   | override u vv => exact override_null ha hv u vv
   | configure u vv v =>
     have hpre : (configurePre E L cfg st u vv).st.value = .null := by
@@ -874,5 +1316,13 @@ theorem step_alwaysNull {E : Ext} {L : Variant} {cfg : Cfg} (ha : cfg.alwaysNull
     · split
       · exact setValue_null ha hpre v false
       · exact hpre
+  | read g h =>
+    simp only [step]; unfold readOp
+    split
+    · exact hv
+    · cases g with
+      | returns x => simp [resetsNull] at hq
+      | absent => exact hv
+      | raises e => exact hv
 
 end Hap.Char
